@@ -30,9 +30,10 @@ Definition d_shop (s : sx) : option (Z * list Z * bool * bool * Z) :=
 Definition d_srun_in (s : sx) : option (Z * bool * Z * Z * Z) :=
   match s with L [A proto; A v6; A last; A start; A grp] => Some (proto, negb (v6 =? 0), last, start, grp) | _ => None end.
 
+(** a run whose local UDP / TCP port another socket could bind while it was in flight is reported as status 77 *)
 Definition d_srun_out (s : sx) : option (Z * list (Z * list Z * bool * bool * Z)) :=
   match s with
-  | L [A status; L hops] => match dec_list d_shop hops with Some h => Some (status, h) | None => None end
+  | L [A status; L hops; A held] => match dec_list d_shop hops with Some h => Some ((if held =? 0 then 77 else status), h) | None => None end
   | _ => None
   end.
 
@@ -69,6 +70,7 @@ Definition rtts_ok (key : Z) (hops : list (Z * list Z * bool * bool * Z)) : bool
 Definition srun_verdict (i : Z * bool * Z * Z * Z) (o : Z * list (Z * list Z * bool * bool * Z)) : Z * option Z :=
   match i, o with
   | (proto, v6, last, _, _), (status, hops) =>
+      if status =? 77 then (6, None) else
       match first_key hops with
       | None => (4, None)
       | Some key =>
@@ -91,6 +93,7 @@ Definition check_shared (prop : Z) (inp impl : sx) : sx :=
           if negb (Nat.eqb (length rin) (length rout)) then badcase else
           let vs := map (fun io => srun_verdict (fst io) (snd io)) (combine rin rout) in
           if existsb (fun v => fst v =? 1) vs then verdict V_SPECFAIL cls (if prop =? 11 then [11; 1] else [1; 2]) (L (map (fun v => A (fst v)) vs))
+          else if (prop =? 11) && existsb (fun v => fst v =? 6) vs then verdict V_SPECFAIL cls [11; 6] (L (map (fun v => A (fst v)) vs))
           else if existsb (fun v => fst v =? 4) vs then verdict V_SPECFAIL cls (if prop =? 11 then [11; 4] else [2; 3]) (L (map (fun v => A (fst v)) vs))
           else if (prop =? 5) && existsb (fun v => fst v =? 5) vs then verdict V_SPECFAIL cls [5; 2] (L (map (fun v => A (fst v)) vs))
           else if negb (nodupz (flat_map (fun v => match snd v with Some k => [k] | None => [] end) vs)) then verdict V_SPECFAIL cls [11; 5] (L [])
